@@ -433,12 +433,6 @@ Definition check_case (c : case) : bool :=
   let tr := trace lit_matches dflt (init_state b v cs) ops in
   all_agree base tr tr is.
 
-(* the same history under the matcher of the pinned code (used for the kept witness of the repaired defect) *)
-Definition check_case_pinned (c : case) : bool :=
-  let '(dflt, base, (b, v, cs), ops, is) := c in
-  let tr := trace pinned_matches dflt (init_state b v cs) ops in
-  all_agree base tr tr is.
-
 (* diagnosis (replays): index of the first operation whose observation or cache labels disagree, with what the
    model shows there *)
 Fixpoint first_bad_from (base : jv) (all ms : list (obs * list string * list err)) (is : list (iobs * list string))
@@ -456,3 +450,9 @@ Definition first_bad (c : case) : option (nat * bool * bool * list string) :=
   let '(dflt, base, (b, v, cs), ops, is) := c in
   let tr := trace lit_matches dflt (init_state b v cs) ops in
   first_bad_from base tr tr is 0.
+
+(* the two label matchers against Python's re (harness: the repaired pattern on arbitrary names, the pinned
+   pattern on names made of literal characters and single `+` operators) *)
+Definition check_matcher (c : bool * Z * string * string * bool) : bool :=
+  let '(pinned, s, n, k, expect) := c in
+  Bool.eqb ((if pinned then pinned_matches else lit_matches) s n k) expect.
